@@ -319,6 +319,7 @@ type VC struct {
 	quiet       int
 	usedAnchors map[string]bool
 	lazyHeaps map[string]Term
+	bvN       int
 }
 
 func (vc *VC) declare(name, sort string) {
